@@ -692,6 +692,7 @@ func init() {
 					}
 				}
 			}
+			g.swarmExtras(p, true, false)
 			return p
 		},
 		Arm: func(s *Sys) { s.Mon = append(s.Mon, &c02{s: s}, &overlapProbe{s: s}) },
